@@ -225,7 +225,7 @@ type Checker struct {
 }
 
 // MaxHelperDepth bounds helper summarisation (quick 2 / thorough 4, set by the driver).
-var MaxHelperDepth = 2
+var MaxHelperDepth = 3
 
 // parameter tokens "#i" (not the "#i" of a tuple extraction, which always follows ')')
 var reParam = regexp.MustCompile(`(^|[^)\w])#([0-9]+)(\.)?`)
@@ -509,6 +509,17 @@ func (c *Checker) helperImplies(call *ssa.Call, isErr bool, want bool, atoms []A
 					for _, a := range atoms {
 						if a.matches(p, pol == want) {
 							covered = true
+						}
+					}
+				}
+				// ... or the result of a further helper:  return k.other(...)
+				if !covered {
+					if inner, ipol := stripNot(res); inner != nil {
+						if cl, isCall := inner.(*ssa.Call); isCall && isBool(cl) {
+							hc.boolIdx = 0
+							if hc.helperImplies(cl, false, ipol == want, atoms) {
+								covered = true
+							}
 						}
 					}
 				}
@@ -1512,6 +1523,21 @@ func DefinitelyNonNil(v ssa.Value, d int) bool {
 				return DefinitelyNonNil(x.Call.Args[0], d+1)
 			}
 		}
+		// a module function with a body all of whose returns are non-nil (a constructor such as  return &T{...})
+		if sc := x.Call.StaticCallee(); sc != nil && len(sc.Blocks) > 0 && sc.Pkg != nil && prog.InModule(sc.Pkg.Pkg.Path()) && sc.Signature.Results().Len() == 1 {
+			n := 0
+			for _, b := range sc.Blocks {
+				if ret, ok := b.Instrs[len(b.Instrs)-1].(*ssa.Return); ok && len(ret.Results) == 1 {
+					n++
+					if !DefinitelyNonNil(ret.Results[0], d+1) {
+						return false
+					}
+				}
+			}
+			return n > 0
+		}
+	case *ssa.Alloc:
+		return true // the address of a variable or of a composite literal
 	case *ssa.UnOp:
 		if g, ok := x.X.(*ssa.Global); ok && strings.HasPrefix(g.Name(), "Err") {
 			return true
